@@ -185,8 +185,9 @@ def cmd_check(pid: str, tier: str) -> int:
                         found = (alt, alt_path)
                         break
                 if found is None:
-                    print(f"HARNESS-ERROR property={pid} replay of {path} in a fresh interpreter did not reproduce {cls} (nor did {len(r.viol_more.get(cls, [])) + 1} unminimised cases of the class: state leaks between runs in one process):\n{out_text[-2000:]}")
-                    return 2
+                    unreproduced.append(cls)
+                    print(f"UNREPRODUCED property={pid} class={cls} case={idx}: seen in this process but not in a fresh interpreter (nor were {len(r.viol_more.get(cls, [])) + 1} unminimised cases of the class) - state leaks between runs in one process")
+                    continue
                 idx, path = found
                 execs = f"0(unminimised:in-process_minimisation_did_not_carry_over_to_a_fresh_interpreter)_after_{execs}"
             print(f"violation class={cls} cases={cnt} first_case={idx} minimised_in={execs}_execs: {msg}")
